@@ -199,24 +199,31 @@ namespace nmtools::array
             if (out_size == 1) {
                 // reduce all to single scalar
 
-                // vertical op
-                auto reg = op.set1(0);
-                for (size_t i=0; (i+N)<=size; i+=N) {
-                    const auto operand = op.loadu(&inp_data_ptr[i]);
-                    reg = op.eval(reg,operand);
-                }
+                // NOTE: start from the first pack / first element instead of a pack of zeros:
+                // zero is the identity of add only (multiply.reduce was always 0, maximum of negatives was 0)
+                auto M = (size/N);
+                element_type result = inp_data_ptr[0];
+                size_t leftover_start = 1;
+                if (M > 0) {
+                    // vertical op
+                    auto reg = op.loadu(&inp_data_ptr[0]);
+                    for (size_t i=N; (i+N)<=size; i+=N) {
+                        const auto operand = op.loadu(&inp_data_ptr[i]);
+                        reg = op.eval(reg,operand);
+                    }
 
-                // horizontal op
-                element_type tmp_res[N];
-                op.storeu(&tmp_res[0],reg);
-                element_type result = tmp_res[0];
-                for (size_t i=1; i<N; i++) {
-                    result = view.op(result,tmp_res[i]);
+                    // horizontal op
+                    element_type tmp_res[N];
+                    op.storeu(&tmp_res[0],reg);
+                    result = tmp_res[0];
+                    for (size_t i=1; i<N; i++) {
+                        result = view.op(result,tmp_res[i]);
+                    }
+                    leftover_start = M*N;
                 }
 
                 // leftover
-                auto M = (size/N);
-                for (size_t i=(M*N); i<size; i++) {
+                for (size_t i=leftover_start; i<size; i++) {
                     result = view.op(result,inp_data_ptr[i]);
                 }
 
